@@ -185,3 +185,78 @@ def _affine(I, ins, args, cond):
 
 for _w in ("128", "256", "512"):
     TABLE["llvm.x86.vgf2p8affineqb." + _w] = _affine
+
+
+# ---------------------------------------------------------------------------
+# MINPS/MAXPS family.  SDM: MIN(a,b) = (a < b) ? a : b ; MAX(a,b) = (a > b) ? a : b
+# ("if either value is a NaN or both are zero, the second operand is returned").
+
+def _fminmax(which, eb):
+    def h(I, ins, args, cond):
+        a, b = args[0], args[1]
+        n = a[1] // eb
+        p = "olt" if which == "min" else "ogt"
+        return T.concat([T.select(T.fcmp(p, T.slice_(a, i * eb, eb), T.slice_(b, i * eb, eb)),
+                                  T.slice_(a, i * eb, eb), T.slice_(b, i * eb, eb)) for i in range(n)])
+    return h
+
+
+for _w in ("min", "max"):
+    TABLE["llvm.x86.sse.%s.ps" % _w] = _fminmax(_w, 32)
+    TABLE["llvm.x86.sse2.%s.pd" % _w] = _fminmax(_w, 64)
+    TABLE["llvm.x86.avx.%s.ps.256" % _w] = _fminmax(_w, 32)
+    TABLE["llvm.x86.avx.%s.pd.256" % _w] = _fminmax(_w, 64)
+
+
+def _fminmax512(which, eb):
+    g = _fminmax(which, eb)
+
+    def h(I, ins, args, cond):
+        # (a, b, rounding) ; rounding 4 = current direction
+        if args[2][0] != "const" or args[2][2] != 4:
+            return NotImplemented
+        return g(I, ins, args[:2], cond)
+    return h
+
+
+for _w in ("min", "max"):
+    TABLE["llvm.x86.avx512.%s.ps.512" % _w] = _fminmax512(_w, 32)
+    TABLE["llvm.x86.avx512.%s.pd.512" % _w] = _fminmax512(_w, 64)
+
+
+# PAVGB/PAVGW: (a + b + 1) >> 1 computed without overflow
+def _pavg(eb):
+    def h(I, ins, args, cond):
+        a, b = args
+        n = a[1] // eb
+        W = eb + 1
+        out = []
+        for i in range(n):
+            x, y = T.zext(T.slice_(a, i * eb, eb), W), T.zext(T.slice_(b, i * eb, eb), W)
+            out.append(T.slice_(T.nary("add", W, [x, y, T.const(W, 1)]), 1, eb))
+        return T.concat(out)
+    return h
+
+
+for _n in ("llvm.x86.sse2.pavg.b", "llvm.x86.avx2.pavg.b", "llvm.x86.avx512.pavg.b.512"):
+    TABLE[_n] = _pavg(8)
+for _n in ("llvm.x86.sse2.pavg.w", "llvm.x86.avx2.pavg.w", "llvm.x86.avx512.pavg.w.512"):
+    TABLE[_n] = _pavg(16)
+
+
+# PSIGNB/W/D: b < 0 ? -a : (b == 0 ? 0 : a)
+def _psign(eb):
+    def h(I, ins, args, cond):
+        a, b = args
+        n = a[1] // eb
+        out = []
+        for i in range(n):
+            x, y = T.slice_(a, i * eb, eb), T.slice_(b, i * eb, eb)
+            out.append(T.select(T.msb(y), T.neg(x), T.select(T.icmp("eq", y, T.const(eb, 0)), T.const(eb, 0), x)))
+        return T.concat(out)
+    return h
+
+
+for _s, _eb in (("b", 8), ("w", 16), ("d", 32)):
+    TABLE["llvm.x86.ssse3.psign.%s.128" % _s] = _psign(_eb)
+    TABLE["llvm.x86.avx2.psign.%s" % _s] = _psign(_eb)
